@@ -12,7 +12,8 @@ import json
 
 from ..common import MachineryError, Verdict, require, scratch
 from ..corpus import library
-from ..proto import cfg_text, default_corpus, full_corpus, prepare_world, run_drivers_parallel, tlc_proto
+from ..proto import cfg_text, default_corpus, full_corpus, prepare_world, run_drivers_parallel, tlc_given, tlc_proto
+from ..randobj import Gen, mutate_bytes
 from .. import common
 from ._proto_common import short, strip_kinds
 from .c02 import collect
@@ -83,7 +84,44 @@ def run(tier, corrupt=False):
                         v.violation(key, f"object differs from the one the reading rules prescribe: got {short(strip_kinds(o['obj']))}, expected {short(r['obj'])}", case)
                     elif o["pos"] != r["pos"]:
                         v.violation(key, f"reader position {o['pos']} after deserialize, the reading rules consume {r['pos']}", case)
+            # ---- pattern V: uniformly random bytes and mutations of the serializations of random larger objects, judged by TLC (givenbytes)
+            import random
+            from ..common import seed
+            rng = random.Random(seed() * 7919 + 3)
+            ctypes = {**types, **{p["name"]: {"kind": "struct", "dir": p["dir"], "code": p["code"]} for p in progs if p["kind"] == "struct"}}
+            gen = Gen(ctypes, rng)
+            idx = {p["name"]: i + 1 for i, p in enumerate(progs)}
+            per = 4 if tier == "quick" else 25
+            scases = [{"kind": "ser", "prog": p["name"], "san0": False, "fuel": -1, "obj": gen.obj(p["code"], p["name"]), "salt": k} for p in accepted for k in range(per)]
+            imp2, sres = run_drivers_parallel(src, wt, accepted, types, scases)
+            vcases = []
+            for c, o in zip(scases, sres):
+                base = o["bytes"] if not o.get("ctor_exc") and not o.get("exc") else []
+                for _ in range(3):
+                    vcases.append({"p": idx[c["prog"]], "data": mutate_bytes(rng, base), "ch0": rng.random() < 0.2})
+            model = tlc_given(tmp, progs, types, vcases, "givenbytes")
+            dcases = [{"kind": "de", "prog": progs[c["p"] - 1]["name"], "data": c["data"], "ch0": c["ch0"], "dfuel": -1} for c in vcases]
+            imp3, dres = run_drivers_parallel(src, wt, accepted, types, dcases)
+            nv = 0
+            for c, m, o in zip(vcases, model, dres):
+                if m["status"] == "bound":
+                    nbound += 1
+                    continue
+                nv += 1
+                if "harness_error" in o:
+                    raise MachineryError(o["harness_error"])
+                prog = progs[c["p"] - 1]["name"]
+                key = f"{prog} (random) data={c['data']} chunked0={c['ch0']}"
+                case = {"prog": prog, "data": c["data"], "ch0": c["ch0"], "model": {"exc": m["exc"], "obj": m["obj"], "pos": m["pos"]}, "observed": {"exc": o["exc"], "obj": o["obj"], "pos": o["pos"], "msg": o.get("exc_msg")}}
+                if o["exc"] != m["exc"]:
+                    v.violation(key, f"deserialize raised {o['exc'] or 'nothing'} ({o.get('exc_msg', '')}); the reading rules give {m['exc'] or 'an object'}", case)
+                elif m["exc"] == "" and strip_kinds(o["obj"]) != m["obj"]:
+                    v.violation(key, f"object differs from the one the reading rules prescribe: got {short(strip_kinds(o['obj']))}, expected {short(m['obj'])}", case)
+                elif m["exc"] == "" and o["pos"] != m["pos"]:
+                    v.violation(key, f"reader position {o['pos']} after deserialize, the reading rules consume {m['pos']}", case)
+            n += nv
     cov = {"states": stats["states"], "transitions": stats["transitions"], "model_runs": stats["runs"], "liveness": stats["liveness"],
+           "random_byte_strings_validated": nv,
            "traces_validated_against_impl": n, "resource_bound_skipped": nbound, "programs": len(progs),
            "samples": [{k: kept[0][k] for k in ("prog", "data", "ch0", "exc", "obj")}, {k: kept[-1][k] for k in ("prog", "data", "ch0", "exc", "obj")}],
            "exhaustive": False,
